@@ -56,7 +56,7 @@ func TestC18DynamicListener(t *testing.T) {
 			route.SetTable(tbl)
 		}
 		set(with)
-		startServers(cfg, metrics.DiscardProvider{})
+		flex(startServers, cfg, metrics.Provider(metrics.DiscardProvider{}))
 		dynListen := "127.0.0.1:" + dynPort
 		if !waitListening(httpAddr) || !waitListening(dynListen) {
 			t.Fatalf("VERIF-INCONCLUSIVE listeners did not come up (http %s, dynamic :%s)", httpAddr, dynPort)
